@@ -49,6 +49,64 @@ def short(e, n=70):
     return "?"
 
 
+
+def _leaf(e):
+    """One-level class of an operand: constant value, field name, callee segment, `v`."""
+    k = e[0]
+    if k == "const":
+        v = e[1]
+        return "'%s'" % v[:20] if isinstance(v, str) else str(v)
+    if k in ("param", "var", "upvar"):
+        return "v"
+    if k == "proj":
+        fields = [f for f in e[2] if not f.startswith("as:") and not f.startswith("[") and not f.isdigit()]
+        if fields:
+            return "." + fields[-1]
+        return _leaf(e[1])
+    if k == "call":
+        return re.sub(r"<[^<>]*>", "", e[1]).split("::")[-1]
+    if k == "bin":
+        return e[1].replace("WithOverflow", "")
+    if k == "un":
+        return e[1]
+    if k == "agg":
+        return re.sub(r"<[^<>]*>", "", e[1]).split("::")[-1]
+    if k == "cast":
+        return _leaf(e[2])
+    if k == "discr":
+        return "discr"
+    return "?"
+
+
+def coarse(site):
+    """Shape of a site that survives renaming, extraction of sub-expressions into variables and the
+    move of the statement into a helper of the same file: operator + one-level operand classes."""
+    kind = site["kind"]
+    if kind.startswith("overflow-") or kind == "bounds":
+        def arith(e):
+            c = _leaf(e)
+            # how an intermediate was computed (a `?`, a sum, a variable) is not part of the shape
+            if c.startswith(".") or c.startswith("'") or c.lstrip("-").isdigit() or c in ("len", "as_ptr", "count"):
+                return c
+            return "x"
+        return "%s,%s" % (arith(site["a"]), arith(site["b"]))
+    if kind.startswith("index-"):
+        i = site["index"]
+        c = _leaf(i)
+        if c in ("v", "Add", "Sub", "min", "max", "add", "saturating_sub", "next", "unwrap_or", "len"):
+            c = "i"
+        r = _leaf(site["recv"]) if site.get("recv") else "?"
+        if r in ("index", "deref", "as_str", "as_ref", "borrow", "as_slice", "as_bytes", "branch", "unwrap", "expect", "to_str", "unwrap_or", "unwrap_or_default", "next", "clone", "trim", "trim_start", "trim_end") or r.startswith("."):
+            r = "v"
+        return "%s[%s]" % (r, c)
+    if "operand" in site:
+        e = site["operand"]
+        if e[0] == "call" and e[2]:
+            return "%s(%s)" % (_leaf(e), _leaf(e[2][0]))
+        return _leaf(e)
+    return site.get("detail", "")
+
+
 def sites(ctx, bodies):
     """[{key, kind, body, bb, span, detail, labels}] for every panic-capable site."""
     out = []
@@ -63,6 +121,9 @@ def sites(ctx, bodies):
             rec = {"key": key, "kind": kind, "body": b, "bb": bb, "span": span, "detail": detail}
             if extra:
                 rec.update(extra)
+            rec["file"] = (span or {}).get("file") or (b.span or {}).get("file") or "?"
+            rec["ckey"] = "%s|%s|%s" % (rec["file"], kind, coarse(rec))
+            rec["term"] = b.blocks[bb]["term"]
             out.append(rec)
 
         for bi, t in b.terms():
@@ -116,7 +177,7 @@ def cycles(ctx, bodies):
             covered |= blocks
             variant, detail = classify_loop(ctx, b, cfg, E, h, blocks)
             n += 1
-            out.append({"key": "%s|loop|%s|%s" % (b.id, variant, detail), "body": b, "header": h, "blocks": blocks, "variant": variant, "detail": detail})
+            out.append({"key": "%s|loop|%s|%s" % ((b.span or {}).get("file"), variant, detail), "body": b, "header": h, "blocks": blocks, "variant": variant, "detail": detail})
         for comp in cfg.sccs():
             if not comp <= covered:
                 out.append({"key": "%s|loop|irreducible|%d" % (b.id, len(comp)), "body": b, "header": min(comp), "blocks": comp, "variant": "unclassified", "detail": "irreducible cycle"})
@@ -139,6 +200,10 @@ def classify_loop(ctx, b, cfg, E, h, blocks):
             if succ:
                 sw = succ[0]
                 tt = b.blocks[sw]["term"]
+                # `iter.next()?`: the Option goes through Try::branch first
+                if tt and tt["k"] == "call" and re.search(r"ops::Try>::branch$", callee_name(tt)) and cfg.succ[sw]:
+                    sw = cfg.succ[sw][0]
+                    tt = b.blocks[sw]["term"]
                 if tt and tt["k"] == "switch":
                     tgts = list(tt["targets"]) + [tt["otherwise"]]
                     leaves = [y for y in tgts if y not in blocks or not _reaches_header(cfg, y, h, blocks)]
@@ -157,6 +222,71 @@ def classify_loop(ctx, b, cfg, E, h, blocks):
                     txt = render(e, 3000)
                     if e[0] == "discr" and "join_next" in txt and any(z not in blocks or not _reaches_header(cfg, z, h, blocks) for z in list(tt["targets"]) + [tt["otherwise"]]):
                         return "iterator", "join_next().await"
+    # tree-cursor walk: every cycle through the header performs a TreeCursor move (first child / next
+    # sibling / parent) - a finite tree is walked depth-first, each node entered once
+    moves = {x for x in blocks if b.blocks[x]["term"] and b.blocks[x]["term"]["k"] == "call"
+             and re.search(r"tree_sitter::TreeCursor::<'cursor>::goto_(first_child|next_sibling|parent)$", callee_name(b.blocks[x]["term"]))}
+    if moves:
+        outside = set(range(cfg.n)) - set(blocks)
+        r = set()
+        for y in cfg.succ[h]:
+            if y in blocks and y not in moves:
+                r |= cfg.reach(y, avoid=outside | moves | {h})
+        if h not in moves and not any(h in cfg.succ[x] for x in r | ({h} if False else set())) and not any(h == y for x in [h] for y in cfg.succ[x] if y == h):
+            return "tree-cursor", "goto_*"
+    # counter: a local that every cycle decrements by a positive constant, tested against zero
+    for x in sorted(blocks):
+        for s in b.blocks[x]["stmts"]:
+            if s["k"] != "assign" or s["lhs"]["p"]:
+                continue
+            l = s["lhs"]["l"]
+            e = E.rvalue(s["rv"])
+            while e[0] == "proj":
+                e = e[1]
+            if e[0] == "bin" and e[1].startswith("Sub") and e[3][0] == "const" and isinstance(e[3][1], int) and e[3][1] >= 1 and e[2] == ("var", l, b.local_name(l)):
+                outside = set(range(cfg.n)) - set(blocks)
+                r = set()
+                for y in cfg.succ[h]:
+                    if y in blocks and y != x:
+                        r |= cfg.reach(y, avoid=outside | {x, h})
+                cyc = any(h in cfg.succ[z] for z in r)
+                tested = False
+                for y in blocks:
+                    tt = b.blocks[y]["term"]
+                    if tt and tt["k"] == "switch":
+                        ee = E.operand(tt["op"])
+                        if ee[0] == "bin" and ee[1] in ("Gt", "Ne") and ee[2] == ("var", l, b.local_name(l)) and ee[3] == ("const", 0):
+                            tested = any(z not in blocks for z in list(tt["targets"]) + [tt["otherwise"]])
+                if not cyc and tested and x != h:
+                    return "counter", "decrement"
+    # shrinking slice: every cycle re-slices a loop-carried &str / &[T] by a positive constant
+    # (`rest = &rest[k..]`, k >= 1): the remaining input strictly shrinks
+    for x in sorted(blocks):
+        tt = b.blocks[x]["term"]
+        if not tt or tt["k"] != "call" or not INDEX.search(tt.get("def") or callee_name(tt)) or len(tt["args"]) < 2:
+            continue
+        ie = E.operand(tt["args"][1])
+        if not (ie[0] == "agg" and ie[1].endswith("RangeFrom") and ie[2] and ie[2][0][0] == "const" and isinstance(ie[2][0][1], int) and ie[2][0][1] >= 1):
+            continue
+        outside = set(range(cfg.n)) - set(blocks)
+        r = set()
+        for y in cfg.succ[h]:
+            if y in blocks and y != x:
+                r |= cfg.reach(y, avoid=outside | {x, h})
+        if any(h in cfg.succ[z] for z in r) or x == h:
+            continue
+        # the slice is stored back into a loop-carried local from which the sliced value derives
+        recv = render(E.operand(tt["args"][0]), 400)
+        for y in sorted(blocks):
+            for s in b.blocks[y]["stmts"]:
+                if s["k"] == "assign" and not s["lhs"]["p"] and b.locals[s["lhs"]["l"]].get("user"):
+                    l = s["lhs"]["l"]
+                    if not any(d[1] not in blocks for d in b.defs().get(l, [])):
+                        continue
+                    ev = E.rvalue(s["rv"])
+                    nm_l = b.local_name(l)
+                    if any(c[0] == "call" and c[3] == x for c in walk(ev) if len(c) > 3) and re.search(r"\b%s\b" % re.escape(nm_l), recv):
+                        return "shrinking-slice", str(ie[2][0][1])
     # cursor / counter loops: recognise by the statements that change the loop-carried value
     carried = []
     for x in sorted(blocks):
@@ -169,7 +299,7 @@ def classify_loop(ctx, b, cfg, E, h, blocks):
     for l, s in carried:
         rv = s["rv"]
         e = E.rvalue(rv)
-        descr.append("%s:=%s" % (b.local_name(l), short(e, 50)))
+        descr.append(":=%s" % short(e, 50))
     if not descr:
         calls = sorted({callee_name(b.blocks[x]["term"]).split("::")[-1] for x in blocks
                         if b.blocks[x]["term"] and b.blocks[x]["term"]["k"] == "call"})
